@@ -63,10 +63,10 @@ func roundTrip(kind string, text []byte) (out []byte, err error, panicked string
 }
 
 var (
-	rxExtUnderXML   = regexp.MustCompile(`/(xml|externalDocs)/[xX]-[^/]*$`)
-	rxSchemaURL     = regexp.MustCompile(`/\$schema$`)
-	rxHeaderExt     = regexp.MustCompile(`/headers/[^/]+/[xX]-[^/]*$`)
-	numericValKeys  = map[string]bool{"minimum": true, "maximum": true, "multipleOf": true, "minLength": true, "maxLength": true, "minItems": true, "maxItems": true, "minProperties": true, "maxProperties": true}
+	rxExtUnderXML  = regexp.MustCompile(`/(xml|externalDocs)/[xX]-[^/]*$`)
+	rxSchemaURL    = regexp.MustCompile(`/\$schema$`)
+	rxHeaderExt    = regexp.MustCompile(`/headers/[^/]+/[xX]-[^/]*$`)
+	numericValKeys = map[string]bool{"minimum": true, "maximum": true, "multipleOf": true, "minLength": true, "maxLength": true, "minItems": true, "maxItems": true, "minProperties": true, "maxProperties": true}
 )
 
 // classifyDiffC01 maps every difference of a failing round trip to a finding class ("" = unexplained).
